@@ -13,6 +13,7 @@ import (
 func init() { register("C07", checkC07) }
 
 var reAtoiMinus = regexp.MustCompile(`RighPart\[\(strconv\.Atoi\(\$match\[1:\]\) - (\d+)\)\]\.Tag$`)
+var reAtoiPlus = regexp.MustCompile(`^\(strconv\.Atoi\(\$match\[1:\]\) \+ (\d+)\)$`)
 
 func checkC07(c *Ctx, r *Report) {
 	r.Explanation = "R13 AFFINE AGREEMENT between the value window and the $n index: from the skeleton, topIndex = pointer + a; from the reduce fragment's shape, the window is stack[topIndex − |rhs| + b : pointer] with |rhs| of the case's own rule; from the extracted replacement shapes, $n is emitted as Dollar[n + c] with the tag of RighPart[n + d] of the same rule and $$ as dollarDolar with the left-hand side's tag. The n-th right-hand symbol lives at pointer − |rhs| + (n−1), so the identity a + b + c = −1 and d = −1 is checked per backend. R2 ORDER: the action text precedes the pop inside a case; in the shift branch the token's value is pushed before the next token is fetched; the reduced entry returned by ReduceFunc is the one pushed; accept returns the value of the entry the lookup was made on. R1: tags flow from %type/%token to Symbol.Tag by copies. Not decided: values computed by user actions; evaluation on inputs."
@@ -80,15 +81,33 @@ func checkC07(c *Ctx, r *Report) {
 				break
 			}
 		}
-		// c: emitted index is the matched digits unchanged: "Dollar[" ‹$match[1:]› "]"
+		// c: emitted index is the NUMBER the reference denotes: "Dollar[" ‹%d ← Atoi($match[1:])› "]". The digits as
+		// written are not that number in the target language: the pattern admits a leading zero, and `010` is 8 in
+		// Go (and rejected or 8 in TypeScript) while the tag is taken from symbol 10 — so the verbatim text is
+		// reported (index-is-emitted-as-a-number below)
 		cOff := -99
+		verbatim := false
 		for i, p := range parts {
-			if p.hole != nil && p.hole.Path == "$match[1:]" && i > 0 && i+1 < len(parts) {
-				if strings.HasSuffix(parts[i-1].lit, "Dollar[") && strings.HasPrefix(parts[i+1].lit, "]") {
-					cOff = 0
+			if p.hole == nil || i == 0 || i+1 >= len(parts) {
+				continue
+			}
+			if !strings.HasSuffix(parts[i-1].lit, "Dollar[") || !strings.HasPrefix(parts[i+1].lit, "]") {
+				continue
+			}
+			switch {
+			case p.hole.Path == "$match[1:]":
+				cOff, verbatim = 0, true
+			case p.hole.Path == "strconv.Atoi($match[1:])" && p.hole.Verb == "d":
+				cOff = 0
+			default:
+				if m := reAtoiPlus.FindStringSubmatch(p.hole.Path); m != nil && p.hole.Verb == "d" {
+					fmt.Sscan(m[1], &cOff)
 				}
 			}
 		}
+		r.Check(cOff != -99 && !verbatim, "C07.a", "R11 HOLE-CONTEXT", b.name+"/index-is-emitted-as-a-number", c.pos(b.pos),
+			"the index of Dollar[…] is printed with %d from the parsed number: $010 and $10 are the same reference",
+			"the index of Dollar[…] is the text of the reference as written: the pattern admits a leading zero, and `$010` is emitted as Dollar[010] — 8 in the generated Go, while the union field is taken from the 10th symbol (`$08` does not compile)")
 		// the $n pattern: a '$' followed by the MAXIMAL run of decimal digits is one reference ($10 is the tenth symbol)
 		patOK, patWhy := false, "no regular-expression replacement of $n in the fragment"
 		walkShape(b.sh, func(x Shape) {
